@@ -67,6 +67,9 @@ def contracts(w):
         C[nm] = {"obj": "r",
                  "eq": {"->n": _wofo(_v("no"), w), "->no": _v("no")},
                  "le": {"->deep": _c(nm + "_deep", _v("no")), "->keep": _c(nm + "_keep", _v("no"))}}
+    m_ = _v("p[0]")
+    C["gf2Create"] = {"obj": "f", "eq": {"->n": _wofb(m_, w), "->no": _oofb(m_)},
+                      "le": {"->deep": _c("gf2Create_deep", m_), "->keep": _c("gf2Create_keep", m_)}}
     for nm in ("ecpCreateJ", "ec2CreateLD"):
         C[nm] = {"obj": "ec", "alias": {"->f": "f"}, "eq": {"->d": lit(3)},
                  "le": {"->deep": _c(nm + "_deep", _v("f->n"), _v("f->deep")), "->keep": _c(nm + "_keep", _v("f->n"))}}
@@ -90,6 +93,17 @@ class UseExprTr(ExprTr):
         ExprTr.__init__(self, tree, file, resolve)
         self.owner = owner
 
+    def expr(self, n):
+        s_ = strip(n)
+        if s_["kind"] == "ArraySubscriptExpr":
+            # p[k] of a `const size_t p[]` parameter with a literal index: an input size
+            b, i = strip(s_["inner"][0]), fold(ExprTr.expr(self, s_["inner"][1]))
+            if (b["kind"] == "DeclRefExpr" and b["referencedDecl"]["kind"] == "ParmVarDecl" and i[0] == "lit"
+                    and b["referencedDecl"]["type"]["qualType"].startswith("const size_t")):
+                return ("var", "%s[%d]" % (b["referencedDecl"]["name"], i[1]))
+            raise Unhandled("array element in a size expression")
+        return ExprTr.expr(self, n)
+
     def call(self, n):
         callee = strip(n["inner"][0])
         nm = callee.get("referencedDecl", {}).get("name") if callee["kind"] == "DeclRefExpr" else None
@@ -102,8 +116,18 @@ class UseExprTr(ExprTr):
         return ExprTr.call(self, n)
 
 
+class _StopPath(Exception):
+    pass
+
+
+# functions analysed PATH BY PATH: every if/else at the top level of the body is a fork, each path is
+# analysed with its branch taken unconditionally (so that the member values assigned in a branch are known
+# in that branch); `if (c) return ...;` without else stays a conditional statement
+SPLIT = {"gf2Create"}
+
+
 class UseFn:
-    def __init__(self, tree, fn, purefns):
+    def __init__(self, tree, fn, purefns, choices=None):
         self.tree, self.fn, self.pure = tree, fn, purefns
         self.ptr = {}        # variable -> (base, offset IR in octets)
         self.sizes = {}      # integer variable -> IR (current symbolic value) or None (unknown)
@@ -129,6 +153,9 @@ class UseFn:
         self.cond_depth = 0
         self.loop_depth = 0
         self.contracts = contracts(word_size(tree))
+        self.choices = choices      # None: no splitting
+        self.taken = []
+        self.path_failed = False
         self.cond_posts = []     # (callee, obj path, {"eq": {suffix: IR}, "le": {...}, "alias": {...}}) applied under a condition
         self.applied = []        # contracts used as facts
 
@@ -289,6 +316,20 @@ class UseFn:
                     elif "*" not in v["type"]["qualType"]:
                         self.sizes.setdefault(v["name"], None)
             return
+        if k == "IfStmt" and self.choices is not None and not self.cond_depth and not self.loop_depth and len(n["inner"]) > 2:
+            inner = n["inner"]
+            self.visit(inner[0])
+            i = len(self.taken)
+            c = self.choices[i] if i < len(self.choices) else True
+            self.taken.append(c)
+            self.visit(inner[1] if c else inner[2])
+            return
+        if k == "ReturnStmt" and self.choices is not None and not self.cond_depth and not self.loop_depth:
+            for c in n.get("inner", []):
+                self.visit(c)
+            r = strip(n["inner"][0]) if n.get("inner") else None
+            self.path_failed = r is not None and r["kind"] == "IntegerLiteral" and r["value"] == "0"
+            raise _StopPath()
         if k == "IfStmt":
             inner = n["inner"]
             self.visit(inner[0])
@@ -690,8 +731,15 @@ class UseFn:
 
     # ------------------------------------------------------------ result
     def run(self):
-        self.visit(self.fn.body)
+        try:
+            self.visit(self.fn.body)
+        except _StopPath:
+            pass
         return self
+
+
+# size parameters of a depth/keep function that the function itself receives inside an array
+BIND_EXTRA = {("gf2Create", "m"): ("var", "p[0]")}
 
 
 def bind_deep_params(tree, f, deepfn, callargs=None, owner=None):
@@ -723,6 +771,8 @@ def bind_deep_params(tree, f, deepfn, callargs=None, owner=None):
                         val = snap[QR_BIND[p]]; break
                     if path is not None and "ec_o" in qqt and p in EC_BIND:
                         val = snap[EC_BIND[p]]; break
+        if val is None and callargs is None and (f.name, p) in BIND_EXTRA:
+            val = BIND_EXTRA[(f.name, p)]
         if val is None:
             raise Unhandled("cannot bind parameter %s of %s" % (p, deepfn.name))
         out.append(val)
@@ -755,10 +805,26 @@ class Obligations:
             if has_stack or has_blob:
                 cands.append(fn)
         sizeofs = set()
+        self.paths = {}
         for fn in cands:
-            u = UseFn(self.tree, fn, self.pure)
             try:
-                u.run()
+                if fn.name in SPLIT:
+                    paths, work = [], [[]]
+                    while work:
+                        ch = work.pop()
+                        up = UseFn(self.tree, fn, self.pure, choices=ch).run()
+                        for i in range(len(ch), len(up.taken)):
+                            work.append(up.taken[:i] + [False])
+                        paths.append(up)
+                        sizeofs |= up.tr.sizeofs
+                        if len(paths) > 32:
+                            raise Unhandled("more than 32 paths")
+                    paths.sort(key=lambda q: [not t for t in q.taken])
+                    self.paths[fn.key] = paths
+                    u = paths[0]
+                else:
+                    u = UseFn(self.tree, fn, self.pure)
+                    u.run()
                 self.uses[fn.key] = u
                 sizeofs |= u.tr.sizeofs
             except Unhandled as e:
@@ -770,10 +836,40 @@ class Obligations:
         self.tree.resolve_sizeofs(sizeofs)
         for k, u in sorted(self.uses.items()):
             try:
-                self.results[k] = self.obligations_of(u)
+                if k in self.paths:
+                    self.results[k] = self.merge_paths(k)
+                else:
+                    self.results[k] = self.obligations_of(u)
             except Unhandled as e:
                 self.unhandled[k] = str(e)
         return self
+
+    def merge_paths(self, k):
+        """one theorem for a function analysed path by path: the goals of every successful path"""
+        res = None
+        good = 0
+        for pi, u in enumerate(self.paths[k]):
+            if u.path_failed:
+                continue          # the function reports failure on this path: no post-condition to establish
+            r = self.obligations_of(u)
+            good += 1
+            tag = "path %s: " % "".join("T" if t else "F" for t in u.taken)
+            r["goals"] = [(tag + lab, l, rr) for lab, l, rr in r["goals"]]
+            if res is None:
+                res = r
+            else:
+                if res["hyps"] != r["hyps"] and (res["hyps"] and r["hyps"]):
+                    hv = {v for v, _ in res["hyps"]} & {v for v, _ in r["hyps"]}
+                    if any(dict(res["hyps"])[v] != dict(r["hyps"])[v] for v in hv):
+                        raise Unhandled("paths constrain the same variable differently")
+                res["hyps"] = res["hyps"] + [h for h in r["hyps"] if h not in res["hyps"]]
+                res["inv"] = res["inv"] + [h for h in r["inv"] if h not in res["inv"]]
+                res["vars"] = sorted(set(res["vars"]) | set(r["vars"]))
+                res["fps"].update(r["fps"])
+                res["goals"] += r["goals"]
+        if not good:
+            raise Unhandled("no successful path")
+        return res
 
     def uses_no_stack(self, key):
         u = self.uses.get(key)
